@@ -105,11 +105,22 @@ def run(tier, seed, open_findings):
     tfail = [dict(case=dict(two_groups=list(r['args'])), observed=[list(b) for b in r['bad'][:4]], required='a type that references two attribute groups admits the intersection of their wildcards') for r in tres if r]
     two = result('C16.two_attribute_groups_intersection', f'{len(tjobs)} schemas: one type referencing two attribute groups with wildcards, and under XSD 1.1 an extension that adds the second group to a type with the first: the union (XSD 1.1 incl. notNamespace / notQName; XSD 1.0 with the second group in an imported schema) x 6 names',
                  len(tjobs) * 6, tfail, exhaustive=True, distinct=len(tjobs) * 6)
-    return [two, result('C16.pairs_through_real_schemas', f'{len(jobs)} ordered pairs of constraints x (extension, attribute group, restriction, choice of two xs:any) over the universe {UNIVERSE}', len(jobs) * 4, fails,
+    # the wildcard of an open content (explicit, or the schema's default one) against the open content of the base type in a restriction: C14's family, the clause is C16's
+    # (a wildcard is accepted as a restriction of another only if its set is included)
+    from . import C14_facets
+    ojobs = C14_facets.open_jobs(); ores = pmap(C14_facets.eval_open_restriction, ojobs, chunk=2)
+    ofail = [dict(case=dict(open=True, default=j[0], base=j[1], derived=j[2], derived_model=j[3]), observed=f'the restricted type accepts the children {r[:5]} (f = foo, e = extra, x = foreign) that the base type rejects',
+                  required='an accepted restriction admits, through its open content, only what the open content of the base admits') for r, j in zip(ores, ojobs) if r]
+    oc = result('C16.open_content_wildcard_restrictions', f'{len(ojobs)} (defaultOpenContent, open content of the base, of the restriction, derived model) under XMLSchema11 x {len(C14_facets.OC_WORDS)} child sequences',
+                len(ojobs), ofail, exhaustive=True, distinct=sum(1 for r in ores if r is not None))
+    return [oc, two, result('C16.pairs_through_real_schemas', f'{len(jobs)} ordered pairs of constraints x (extension, attribute group, restriction, choice of two xs:any) over the universe {UNIVERSE}', len(jobs) * 4, fails,
                    exhaustive=True, samples=[dict(a=['namespace', '##other'], b=['namespace', '##targetNamespace urn:b'], op='extension')], distinct=len(jobs) * 4)]
 
 
 def replay(check_name, case):
+    if case.get('open'):
+        from . import C14_facets
+        return C14_facets.replay(check_name, case)
     if 'two_groups' in case:
         from . import C03
         return C03.replay(check_name, case)
